@@ -115,6 +115,7 @@ struct SchedConfig {
   std::vector<SwitchRec> script; // P_SCRIPT
   bool record = false;           // keep the switch log
   uint64_t max_steps = 50000000; // step budget per run
+  uint32_t static_init_throw = 0; // k>0: the k-th scalar op inside a static initialiser throws
 };
 
 struct SchedStats {
